@@ -193,6 +193,14 @@ func (env *cenv) eval(e *CExpr) cval {
 		if v, ok := env.vars[e.Name]; ok {
 			if v.cell != "" {
 				v.term = env.g.loadPtr(env.cur, v.cell, v.typ)
+				if env.cur.formal == nil {
+					env.g.stateVar("G.alloc", "Int")
+					key := "cellwf:" + v.term
+					if f := env.g.typeFacts(v.term, v.typ, env.g.get(env.cur, "G.alloc")); f != "true" && !env.g.declared[key] {
+						env.g.declared[key] = true
+						env.g.emit("(assert " + f + ")") // a value held by a variable is a well-formed value of its type
+					}
+				}
 			}
 			return v
 		}
@@ -552,6 +560,11 @@ func (env *cenv) call(e *CExpr) cval {
 		}
 		_, t := env.sortOfTypeName(args[1].Name)
 		return env.boolv(fmt.Sprintf("(= (itag %s) %d)", a.term, g.eng.TagOf(t)))
+	case "quo":
+		// quo(a, b): Go integer division (truncated toward zero)
+		a := env.eval(args[0])
+		b := env.eval(args[1])
+		return env.intv(fmt.Sprintf("(let ((a!q %s) (b!q %s)) (ite (= b!q 0) 0 (ite (>= a!q 0) (ite (> b!q 0) (div a!q b!q) (- (div a!q (- b!q)))) (ite (> b!q 0) (- (div (- a!q) b!q)) (div (- a!q) (- b!q))))))", a.term, b.term))
 	case "as":
 		// as(x, T): Go conversion between types of the same representation (named string / integer types)
 		a := env.eval(args[0])
